@@ -207,7 +207,10 @@ def corruption_selftest(rep, ok, verdicts, trace_module):
                     return r
         return None
 
-    picked = [r for r in ok if r.get("kind") == "parse" and not verdicts.get(r["id"]) and r.get("obs", {}).get("res", {}).get("status") == "ok"][:8]
+    # (an input that ends inside trailing padding is judged laxly - value or EOFError, position open - so only records whose
+    # parse stopped before the end of the input are used)
+    picked = [r for r in ok if r.get("kind") == "parse" and not verdicts.get(r["id"]) and r.get("obs", {}).get("res", {}).get("status") == "ok"
+              and r["obs"]["res"]["pos"] < len(r.get("input", []))][:8]
     bad = []
     for r in picked:
         c = copy.deepcopy(r)
